@@ -7,6 +7,7 @@
 // overlapping accesses as races, unjoined goroutines as leaks and blocked sends as deadlocks.
 //verif:pkg revocation
 //verif:harness H_C11_orch
+//verif:harness H_C11_orch_long thorough-only
 //verif:summary github.com/notaryproject/notation-core-go/revocation/internal/ocsp.CertCheckStatus -> sumOCSP
 //verif:summary github.com/notaryproject/notation-core-go/revocation/internal/crl.CertCheckStatus -> sumCRL
 //verif:summary github.com/notaryproject/notation-core-go/revocation/internal/x509util.ValidateChain -> sumChain
@@ -222,9 +223,18 @@ func runValidate(v *revocation, chain []*x509.Certificate) (res []*result.CertRe
 	return
 }
 
+// longChains: the thorough-only variants trade URLs per kind for chain length (chains 0..3 with 0..2 URLs per kind are
+// ~3*10^4 paths; 0..4 with 0..2 did not finish within the 90 min budget - 1.3*10^6 paths - and is not registered;
+// 0..5 with 0..1 is)
+var longChains bool
+
 func setup(nMaxQuick, nMaxThorough int) (*revocation, []*x509.Certificate, int) {
-	n := rt.Choose("n", 1+rt.Bound("chain_len_max", nMaxQuick, nMaxThorough))
-	chain := buildChain(n, rt.Bound("urls_per_kind_max", 2, 2))
+	nMax, uMax := rt.Bound("chain_len_max", nMaxQuick, nMaxQuick), rt.Bound("urls_per_kind_max", 2, 2)
+	if longChains {
+		nMax, uMax = rt.Bound("long_chain_len_max", 5, 5), rt.Bound("long_urls_per_kind_max", 1, 1)
+	}
+	n := rt.Choose("n", 1+nMax)
+	chain := buildChain(n, uMax)
 	theChain = chain
 	thePurpose = purpose.Purpose(rt.Choose("purpose", 2))
 	theClient, theFetcher, theST = &http.Client{}, nopFetcher{}, rt.Time("signingTime")
@@ -324,6 +334,12 @@ func H_C11_orch() {
 
 // C12 entry: same exploration; the C12.* assertions are the subject.
 func H_C12_orch() { H_C11_orch() }
+
+// thorough tier: chains up to 5 with at most one URL per kind
+func H_C11_orch_long() { longChains = true; H_C11_orch() }
+func H_C12_orch_long() { longChains = true; H_C11_orch() }
+func H_C17_orch_long() { longChains = true; H_C17_orch() }
+func H_C06_orch_long() { longChains = true; H_C06_orch() }
 
 // C17 entry: the summaries may also PANIC (a caller-supplied fetcher or transport may). Asserted: a panic inside a
 // per-certificate check resurfaces on the caller's goroutine with one of the panic values raised, nothing is returned,
